@@ -198,7 +198,7 @@ theorem step_count {t t' : T} {ev : Ev} (hinv : CountInv t) (h : step t ev = .ok
   | localRun id reqs its nfev => exact local_count hinv h
   | round ge renv news =>
     obtain ⟨_, _, _, _, _, _, hcase⟩ := stepRound_effect h
-    rcases hcase with ⟨hd, _, hl, hr⟩ | ⟨_, _, _, seeds, t1, _, _, hds, rfl⟩
+    rcases hcase with ⟨hd, _, hl, hr, _⟩ | ⟨_, _, _, seeds, t1, _, _, hds, rfl⟩
     · intro href lv
       rw [hd, hl]
       exact hinv (by rw [← hr]; exact href) lv
